@@ -249,7 +249,11 @@ func runC15(w *core.World, r *core.Report) {
 			maxHandled = op
 		}
 	}
-	if os := anchor(w, r, "vm", "opSplit"); os != nil && maxHandled >= 0 {
+	osd := primitiveDecoder(w, "O")
+	if osd == nil {
+		r.Undecided("R5", "opcode decoder", token.NoPos, "no primitive decoder returns a vm.Opcode")
+	}
+	if os := osd; os != nil && maxHandled >= 0 {
 		// find a comparison of the decoded opcode with a constant whose true edge returns an error
 		limit := int64(-1)
 		for _, b := range os.Blocks {
@@ -275,16 +279,20 @@ func runC15(w *core.World, r *core.Report) {
 			}
 		}
 		if limit < 0 {
-			r.Bad("R5", "vm.opSplit: opcode range test", os.Pos(), "opSplit does not compare the decoded opcode with an upper limit")
+			r.Bad("R5", "opcode decoder: opcode range test", os.Pos(), "the opcode decoder does not compare the decoded opcode with an upper limit")
 		} else {
-			r.Check(limit <= maxHandled, "R5", "vm.opSplit: opcode range test", os.Pos(),
+			r.Check(limit <= maxHandled, "R5", "opcode decoder: opcode range test", os.Pos(),
 				fmt.Sprintf("accepts opcodes <= %d; largest handled opcode is %d", limit, maxHandled),
 				fmt.Sprintf("accepts opcodes up to %d but the largest opcode with a handler is %d", limit, maxHandled))
 		}
 	}
 
 	// ---- R6 ----------------------------------------------------------------------------------
-	if is := anchor(w, r, "vm", "intSplit"); is != nil {
+	isd := primitiveDecoder(w, "I")
+	if isd == nil {
+		r.Undecided("R6", "integer decoder", token.NoPos, "no primitive decoder returns an integer")
+	}
+	if is := isd; is != nil {
 		// the Uint32 precondition and the copy into a 4-byte buffer are part of R1; here: on every
 		// nil-error return path the length byte is proven <= 4
 		bd := core.NewBounds(is, bits)
@@ -304,7 +312,7 @@ func runC15(w *core.World, r *core.Report) {
 			}
 		}
 		if lenByte == nil {
-			r.Undecided("R6", "vm.intSplit: length byte", is.Pos(), "cannot identify the length byte (b[0] of the parameter)")
+			r.Undecided("R6", "integer decoder: length byte", is.Pos(), "cannot identify the length byte (b[0] of the parameter)")
 		} else {
 			for _, b := range is.Blocks {
 				ret, ok := b.Instrs[len(b.Instrs)-1].(*ssa.Return)
@@ -319,7 +327,7 @@ func runC15(w *core.World, r *core.Report) {
 					okAll = false
 				}
 			}
-			r.Check(okAll && n > 0, "R6", "vm.intSplit: length byte <= 4 on success", is.Pos(), "every nil-error return is behind a guard length <= 4", "an integer argument with a length byte above 4 is accepted (decoded as a wrong value)")
+			r.Check(okAll && n > 0, "R6", "integer decoder: length byte <= 4 on success", is.Pos(), "every nil-error return is behind a guard length <= 4", "an integer argument with a length byte above 4 is accepted (decoded as a wrong value)")
 		}
 	}
 
